@@ -31,7 +31,9 @@ def render(c):
         lines.append("#[::async_trait::async_trait]")
     head = ("pub " if "pubvis" in cs else "") + ("unsafe " if "unsafe" in cs else "") + "trait Tr"
     if "generics" in cs:
-        head += "<G: Clone>" if "where" not in cs else "<G>"
+        g = "G: Clone" if "where" not in cs else "G"
+        head += {"type": f"<{g}>", "const-first": f"<const N: usize, {g}>", "lifetime": f"<'t, {g}>", "default": f"<{g} = u8>",
+                 "mixed": f"<'t, const N: usize, {g} = u8>"}[c["gk"]]
     if "supertrait" in cs:
         head += ": Sup + 'static"
     if "where" in cs:
@@ -123,16 +125,16 @@ def main():
     chk.cov["evaluations"] = len(events)
     chk.cov["cases_enumerated"] = len(cases)
     chk.cov["distinct_nontrivial"] = sum(1 for e in events if e["o"]["found"] and len(byid[e["case"]]["comps"]) >= 1)
-    chk.cov["rule"] = ("every subset of 13 trait components {doc, lint attribute, pub, unsafe, generics, supertrait, where, default body, "
+    chk.cov["rule"] = ("every subset of 13 trait components {doc, lint attribute, pub, unsafe, generics (5 shapes: type / const-before-type / lifetime / defaulted / all), supertrait, where, default body, "
                        "associated type, method doc/attribute, method cfg, async methods, second method} x 8 trait-mode option sets; quick: all "
                        "subsets of size <= 2 and >= 11 plus 1500 seeded others; non-trivial = expanded and at least one component")
     chk.cov["exhaustive"] = bool(thorough)
     vf.report_drift(chk, drift, lambda d: f"comps={byid[d['case']]['comps']} opt={byid[d['case']]['opt']} errors={ev[d['case']]['errors']}")
-    chk.cov["samples"] = [{"comps": c["comps"], "opt": c["opt"], "emitted_attrs": [a["text"] for a in ev[c["case"]]["o"]["attrs"]]}
+    chk.cov["samples"] = [{"comps": c["comps"], "gk": c["gk"], "opt": c["opt"], "emitted_attrs": [a["text"] for a in ev[c["case"]]["o"]["attrs"]]}
                           for c in sel[:: max(1, len(sel) // 4)][:4]]
     for b in bad:
         c = byid[b["case"]]
-        b["detail"] = f"comps={c['comps']} opt={c['opt']} errors={ev[b['case']]['errors']}"
+        b["detail"] = f"comps={c['comps']} gk={c['gk']} opt={c['opt']} errors={ev[b['case']]['errors']}"
         # a deviation class only covers its own conjunct
         want = {"unsafe-trait-dropped": {"unsafe"}, "associated-types-dropped": {"assoc-types", "unsafe", "default-bodies"},
                 "default-method-body-dropped": {"default-bodies"}}
